@@ -61,6 +61,7 @@ type outcome struct {
 }
 
 type item struct {
+	tool     string // the run as the exit-status model sees it (`tool` line of the driver protocol), "" when not recorded
 	class    string
 	text     string
 	flags    []string
@@ -72,6 +73,52 @@ type item struct {
 
 var documented = map[int]bool{0: true, 1: true, 2: true, 3: true, 4: true, 5: true, 6: true, 7: true, 8: true, 9: true}
 
+// argRuns are the runs that end before the grammar is looked at: a flag that does not exist, a malformed flag value, help,
+// two arguments, an input file that is not there, an output file that cannot be created, an unknown entrypoint. What the
+// harness knows of each is complete; the exit-status model has to predict the status exactly.
+func argRuns(pigeon, dir string, timeout time.Duration) []string {
+	g := filepath.Join(dir, "argrun.peg")
+	os.WriteFile(g, []byte("A <- \"a\" B\nB <- \"b\"\n"), 0o644)
+	type run struct {
+		args   []string
+		fields string // nargs + the 12 fields
+	}
+	runs := []run{
+		{[]string{"-no-such-flag", g}, "1 0 0 1 1 1 0 1 1 1 1 1 1"},
+		{[]string{"-optimize-parser=maybe", g}, "1 0 0 1 1 1 0 1 1 1 1 1 1"},
+		{[]string{"-h"}, "0 1 1 1 1 1 0 1 1 1 1 1 1"},
+		{[]string{"-help", g}, "1 1 1 1 1 1 0 1 1 1 1 1 1"},
+		{[]string{g, g}, "2 1 0 1 1 1 0 1 1 1 1 1 1"},
+		{[]string{"-x", g, "extra"}, "2 1 0 1 1 1 1 1 1 1 1 1 1"},
+		{[]string{filepath.Join(dir, "not-there.peg")}, "1 1 0 0 1 1 0 1 1 1 1 1 1"},
+		{[]string{"-o", filepath.Join(dir, "no-such-dir", "p.go"), g}, "1 1 0 1 1 1 0 0 1 1 1 1 1"},
+		{[]string{"-x", "-o", filepath.Join(dir, "no-such-dir", "p.go"), g}, "1 1 0 1 1 1 1 0 1 1 1 1 1"},
+		{[]string{"-alternate-entrypoints", "B,Nope", g}, "1 1 0 1 1 0 0 1 1 1 1 1 1"},
+		{[]string{"-alternate-entrypoints", "B,,A", "-x", g}, "1 1 0 1 1 1 1 1 1 1 1 1 1"},
+		{[]string{"-o", filepath.Join(dir, "argrun.go"), g}, "1 1 0 1 1 1 0 1 1 1 1 1 1"},
+	}
+	var out []string
+	for k, rn := range runs {
+		ctx, cancel := context.WithTimeout(context.Background(), 3*timeout)
+		cmd := exec.CommandContext(ctx, pigeon, rn.args...)
+		cmd.Dir = dir
+		cmd.Stdin = strings.NewReader("")
+		err := cmd.Run()
+		cancel()
+		code := 0
+		if ee, ok := err.(*exec.ExitError); ok {
+			code = ee.ExitCode()
+		} else if err != nil {
+			continue
+		}
+		if code < 0 {
+			continue
+		}
+		out = append(out, fmt.Sprintf("tool %d %s %d", 900001+k, rn.fields, code))
+	}
+	return out
+}
+
 func main() {
 	seed := flag.Int64("seed", 1, "random seed (all randomness derives from it)")
 	n := flag.Int("n", 500, "number of runs")
@@ -79,6 +126,7 @@ func main() {
 	includeKnown := flag.Bool("include-known", false, "lift the known-defect avoidance")
 	lift := flag.String("lift", "", "lift single avoidances: comma-separated list of "+strings.Join(pvpeg.AvoidNames(), ","))
 	out := flag.String("out", "/tmp/pvt.pvtool.out", "directory for failing inputs")
+	toolOut := flag.String("toolout", "", "write one `tool` line per run (what is known of its stages, the observed status) to this file")
 	jobs := flag.Int("j", 16, "parallel runs")
 	timeout := flag.Duration("timeout", 10*time.Second, "per-run timeout")
 	flag.Parse()
@@ -132,6 +180,19 @@ func main() {
 		os.RemoveAll(scratch)
 		os.Exit(2)
 	default:
+	}
+	if *toolOut != "" {
+		var tl []string
+		for _, it := range items {
+			if it.tool != "" {
+				tl = append(tl, it.tool)
+			}
+		}
+		tl = append(tl, argRuns(*pigeon, scratch, *timeout)...)
+		if err := os.WriteFile(*toolOut, []byte(strings.Join(tl, "\n")+"\n"), 0o644); err != nil {
+			fmt.Fprintln(os.Stderr, "pvtool:", err)
+			os.Exit(2)
+		}
 	}
 	sampled := map[string]bool{}
 	for _, it := range items {
@@ -328,6 +389,7 @@ func evaluate(srv *pvpeg.Server, pigeon, dir string, seed int64, i int, av pvpeg
 	// flags
 	var flags []string
 	var entryNames []string // existing rules named by -alternate-entrypoints: they must survive as entrypoints
+	entryKnown := true      // every non-empty name given is a rule of the grammar
 	has := map[string]bool{}
 	add := func(fl ...string) {
 		flags = append(flags, fl...)
@@ -393,6 +455,14 @@ func evaluate(srv *pvpeg.Server, pigeon, dir string, seed int64, i int, av pvpeg
 				if rl == strings.TrimSpace(nm) {
 					entryNames = append(entryNames, rl)
 				}
+			}
+			// main.go: a non-empty name (what stands between two commas, blanks included) has to be a rule
+			if nm != "" {
+				found := false
+				for _, rl := range f.rules {
+					found = found || rl == nm
+				}
+				entryKnown = entryKnown && found
 			}
 		}
 	}
@@ -511,6 +581,21 @@ func evaluate(srv *pvpeg.Server, pigeon, dir string, seed int64, i int, av pvpeg
 		return it
 	}
 	it.exit = fmt.Sprint(code)
+	if code >= 0 && (ans.Kind == "ok" || ans.Kind == "err") {
+		b := func(x bool) int {
+			if x {
+				return 1
+			}
+			return 0
+		}
+		nargs := 1
+		if stdin {
+			nargs = 0
+		}
+		// flagsParse help inputOpens parseOK entrypointsKnown noBuild outOpens buildOK formatOK writeOK closeOutOK closeInOK
+		// (2 = not known to this harness: whether the builder / the formatter accept, whether a close fails)
+		it.tool = fmt.Sprintf("tool %d %d 1 0 1 %d %d %d 1 2 2 %d 2 2 %d", i+1, nargs, b(ans.Kind == "ok"), b(entryKnown), b(has["-x"]), b(!unwritable), code)
+	}
 	stderr := se.String()
 	head := stderr
 	if len(head) > 500 {
